@@ -30,6 +30,12 @@ let ev_tok () = match next () with
   | "align" -> EAlign (next_z ())
   | t -> failwith ("bad event " ^ t)
 let handle = function
+  | "tmplabel" ->
+    (* isa fmt name label suffix: the ABI's prefix, temporary_label(name), whether `label` is temporary, the name it gets *)
+    let isa = nn () in let fmt = nn () in let name = cstr_of_str (next ()) in let label = cstr_of_str (next ()) in let sfx = cstr_of_str (next ()) in
+    "supported " ^ (if supported isa fmt then "1" else "0") ^ " | prefix " ^ str_of_cstr (abi_temporary_label_prefix isa fmt) ^
+    " | label " ^ str_of_cstr (temporary_label isa fmt name) ^ " | temp " ^ (if mc_is_temporary isa fmt label then "1" else "0") ^
+    " | named " ^ str_of_cstr (symbol_name isa fmt label sfx)
   | "asm" ->
     let modsyms = listn (fun () -> let n = nn () in let r = aref_tok () in (n, r)) in
     let pie = next_bool () in let undef = next_bool () in let unreach = next_bool () in
